@@ -201,6 +201,7 @@ sLUMemInit(fact_t fact, void *work, int_t lwork, int m, int n, int_t annz,
     float   *ucol;
     int_t    *usub, *xusub;
     int_t    nzlmax, nzumax, nzlumax;
+    int_t    top1_mark = 0, used_mark = 0;
     
     iword     = sizeof(int);
     dword     = sizeof(float);
@@ -244,6 +245,12 @@ sLUMemInit(fact_t fact, void *work, int_t lwork, int m, int n, int_t annz,
 	    xusub  = suser_malloc((n+1) * iword, HEAD, Glu);
 	}
 
+	if ( Glu->MemModel == USER ) {
+	    /* Remember the stack before the four requests, so that a failed
+	       round can give back exactly what it obtained. */
+	    top1_mark = Glu->stack.top1;
+	    used_mark = Glu->stack.used;
+	}
 	lusup = (float *) sexpand( &nzlumax, LUSUP, 0, 0, Glu );
 	ucol  = (float *) sexpand( &nzumax, UCOL, 0, 0, Glu );
 	lsub  = (int_t *) sexpand( &nzlmax, LSUB, 0, 0, Glu );
@@ -256,8 +263,11 @@ sLUMemInit(fact_t fact, void *work, int_t lwork, int m, int n, int_t annz,
 		SUPERLU_FREE(lsub); 
 		SUPERLU_FREE(usub);
 	    } else {
-		suser_free((nzlumax+nzumax)*dword+(nzlmax+nzumax)*iword,
-                            HEAD, Glu);
+		/* Some of the four requests may have failed, and the granted ones
+		   may include an alignment pad: restore the stack instead of
+		   releasing the sum of the requested sizes. */
+		Glu->stack.top1 = top1_mark;
+		Glu->stack.used = used_mark;
 	    }
 	    nzlumax /= 2;
 	    nzumax /= 2;
